@@ -268,12 +268,15 @@ def addLinkFresh (st : St) (r : Rec) : Except Err St :=
       if (st.lines.getD j default).virt ∧ (st.lines.getD j default).rt = .unk then substitute st j r
       else .error .notUnique
 
+/-- item lists of two lines of one group, concatenated (a group emptied by removals has no items) -/
+def catItems (a b : String) : String := if a = "" then b else a ++ " " ++ b
+
 /-- several group lines with one identifier: items concatenated, tags united -/
 def mergeGroup (st : St) (r : Rec) (n : String) (i : Nat) : Except Err St :=
   match mergeTags (st.lines.getD i default).tags r.tags with
   | none => .error .notUnique
   | some tg =>
-    let merged : Rec := ⟨r.rt, [n, fld (st.lines.getD i default) 1 ++ " " ++ fld r 1] ++ tg, false⟩
+    let merged : Rec := ⟨r.rt, [n, catItems (fld (st.lines.getD i default) 1) (fld r 1)] ++ tg, false⟩
     ensureRefs { st with lines := replaceAt st.lines i merged } r
 
 /-- a line whose identifier `n` is carried by the stored line at index `i` -/
@@ -284,10 +287,17 @@ def addOnto (st : St) (r : Rec) (n : String) (i : Nat) : Except Err St :=
   else if (r.rt = .O ∨ r.rt = .U) ∧ (st.lines.getD i default).rt = r.rt then mergeGroup st r n i
   else .error .notUnique
 
+/-- a line that mentions its own identifier (`_check_self_reference`) -/
+def selfRef (r : Rec) : Bool :=
+  match r.name with
+  | some n => (r.segRefs ++ r.itemRefs).contains n
+  | none => false
+
 /-- `Gfa.add_line` for a connected-state Gfa of known version -/
 def add (st : St) (r : Rec) : Except Err St :=
   if !allowed st.ver r.rt then .error .version else
   if r.rt = .S ∧ segSyntax r ≠ some st.ver then (if (segSyntax r).isNone then .error .format else .error .version) else
+  if selfRef r then .error .notUnique else
   if r.rt = .L then
     match r.linkOf with
     | none => .error .format
